@@ -197,6 +197,13 @@ qb_rb_open_2(const char *name, size_t size, uint32_t flags,
 	if (rb->shared_hdr == MAP_FAILED) {
 		error = -errno;
 		qb_util_log(LOG_ERR, "couldn't create mmap for header");
+		if (flags & QB_RB_FLAG_CREATE) {
+			/*
+			 * the file has just been created and its name is
+			 * not recorded anywhere else yet
+			 */
+			(void)unlink(path);
+		}
 		goto cleanup_hdr;
 	}
 	qb_atomic_init();
